@@ -607,6 +607,10 @@ class _Gen(object):
                 self.feats.add(cmd[1:] + ":nested-math")
                 c = self.sub(ctx, arrays=False)
                 words.append("$" + self.seq(depth - 1, c, 3) + "$")
+        modal = [m for m in ctx["macros"] if m.get("modal")]
+        if modal and self.integer(0, 1):
+            words.append(self.pick(modal)["name"] + "{}")      # text-mode call of a mode-dependent macro
+            self.feats.add("textbox:mode-dependent-macro")
         if self.integer(0, 1):
             words.append(self.pick(WORDS))
         return cmd + "{" + self.pick(["", " "]) + " ".join(words) + self.pick(["", " "]) + "}"
@@ -731,12 +735,23 @@ def _math_case(draw, placements, max_items):
     macros = []
     nm = g.integer(0, 3)
     for i in range(nm):
-        how = g.pick(["newcommand", "newcommand", "optional", "def"])
+        how = g.pick(["newcommand", "newcommand", "optional", "def", "modal"])
+        if how == "modal":
+            # a mode-dependent macro (the \\ensuremath idiom): its expansion depends on whether the
+            # call stands in a formula or in the text of a box inside a formula
+            macros.append({"name": MACRO_NAMES[i], "how": "newcommand", "nargs": 0, "default": None,
+                           "body": "\\ifmmode %s\\else %s\\fi" % (g.pick(["m", "\\mu", "i"]), g.pick(["t", "x", "tt"])),
+                           "modal": True})
+            g.feats.add("macro:mode-dependent")
+            continue
         nargs = g.integer(2, 3) if how == "optional" else g.integer(0, 3)
         body = g.seq(2, _base_ctx(list(macros), params=nargs, arrays=False, deep=known), 4)
         default = None
         if how == "optional":
             default = g.seq(0, dict(_base_ctx([], deep=known), nobracket=True), 2)
+            if g.integer(0, 3) == 0:
+                default = ""        # \newcommand{\m}[2][]{..}: the optional argument defaults to nothing
+                g.feats.add("macro:empty-optional-default")
         macros.append({"name": MACRO_NAMES[i], "how": how, "nargs": nargs, "default": default, "body": body})
     items = []
     for _ in range(g.integer(1, max_items)):
